@@ -643,8 +643,11 @@ func (resp *Resp) backoffGet() time.Time {
 	ch.mu.Lock()
 	defer ch.mu.Unlock()
 	if ch.backoffCur > 0 {
-		delay := c.delayInit << ch.backoffCur
-		delay = min(delay, c.delayMax)
+		// the shift overflows for a large backoff count, cap at delayMax instead
+		delay := c.delayMax
+		if ch.backoffCur < 63 && c.delayInit <= c.delayMax>>ch.backoffCur {
+			delay = c.delayInit << ch.backoffCur
+		}
 		next := ch.backoffLast.Add(delay)
 		now := time.Now()
 		if now.After(next) {
